@@ -221,12 +221,114 @@ fn print_pp(ctx: &mut Ctx, r: Result<(PreprocessedText, Defines), Error>, o: &mu
     }
 }
 
+fn t_root<'a>(t: &'a SyntaxTree) -> Vec<RefNode<'a>> {
+    match t.into_iter().next() {
+        Some(n) => vec![n],
+        None => vec![],
+    }
+}
+
+fn first_leaf_off(t: &SyntaxTree) -> usize {
+    for n in t {
+        if let RefNode::Locate(l) = n {
+            return l.offset;
+        }
+    }
+    0
+}
+
+fn tok(n: &RefNode) -> String {
+    match n {
+        RefNode::Locate(l) => format!("@{}:{}:{}", l.offset, l.len, l.line),
+        x => format!("+{}", x),
+    }
+}
+
+fn first_leaf(n: &RefNode) -> String {
+    for x in n.clone() {
+        if let RefNode::Locate(l) = x {
+            return format!("{}", l.offset);
+        }
+    }
+    "-".to_string()
+}
+
+macro_rules! unwrap_line {
+    ($o:expr, $label:expr, $it:expr, $( $ty:tt ),+) => {{
+        let r = sv_parser::unwrap_node!($it, $( $ty ),+);
+        match r {
+            Some(x) => writeln!($o, "unwrap {} {}@{}", $label, tok(&x), first_leaf(&x)).unwrap(),
+            None => writeln!($o, "unwrap {} -", $label).unwrap(),
+        }
+    }};
+}
+
+fn iter_dump<'a>(root: RefNode<'a>, o: &mut String, want: &HashSet<String>) {
+    if want.contains("iter") {
+        let mut s = String::from("iter");
+        for n in root.clone() {
+            s.push(' ');
+            s.push_str(&tok(&n));
+        }
+        writeln!(o, "{}", s).unwrap();
+    }
+    if want.contains("events") {
+        let mut s = String::from("events");
+        for e in root.clone().into_iter().event() {
+            match e {
+                NodeEvent::Enter(x) => {
+                    s.push_str(" E");
+                    s.push_str(&tok(&x));
+                }
+                NodeEvent::Leave(x) => {
+                    s.push_str(" L");
+                    s.push_str(&tok(&x));
+                }
+            }
+        }
+        writeln!(o, "{}", s).unwrap();
+    }
+    if want.contains("sub") {
+        let all: Vec<RefNode<'a>> = root.clone().into_iter().collect();
+        for (i, n) in all.iter().enumerate() {
+            if i % 5 == 0 || all.len() < 40 {
+                let mut s = format!("sub {}", i);
+                for m in n.clone() {
+                    s.push(' ');
+                    s.push_str(&tok(&m));
+                }
+                writeln!(o, "{}", s).unwrap();
+                let mut s = format!("subev {}", i);
+                for e in n.clone().into_iter().event() {
+                    match e {
+                        NodeEvent::Enter(x) => { s.push_str(" E"); s.push_str(&tok(&x)); }
+                        NodeEvent::Leave(x) => { s.push_str(" L"); s.push_str(&tok(&x)); }
+                    }
+                }
+                writeln!(o, "{}", s).unwrap();
+                unwrap_line!(o, format!("{}:loc", i), n.clone(), Locate);
+                unwrap_line!(o, format!("{}:kwsym", i), n.clone(), Keyword, Symbol);
+                unwrap_line!(o, format!("{}:id", i), n.clone(), SimpleIdentifier, EscapedIdentifier);
+                unwrap_line!(o, format!("{}:ws", i), n.clone(), WhiteSpace, Comment);
+                match sv_parser::unwrap_locate!(n.clone()) {
+                    Some(l) => writeln!(o, "unwraploc {} @{}:{}:{}", i, l.offset, l.len, l.line).unwrap(),
+                    None => writeln!(o, "unwraploc {} -", i).unwrap(),
+                }
+                // Locate::try_from is exercised through the node-type specific impls elsewhere
+            }
+        }
+    }
+}
+
 fn print_tree(ctx: &mut Ctx, r: Result<(SyntaxTree, Defines), Error>, o: &mut String) {
     match r {
         Ok((t, d)) => {
             writeln!(o, "ok").unwrap();
             if ctx.want.contains("tree") {
                 writeln!(o, "{}", tree_line((&t).into_iter().event())).unwrap();
+            }
+            if let Some(root) = t.into_iter().next() {
+                iter_dump(root, o, &ctx.want);
             }
             if ctx.want.contains("tokorg") {
                 let mut s = String::from("tokorg");
@@ -257,6 +359,24 @@ fn print_tree(ctx: &mut Ctx, r: Result<(SyntaxTree, Defines), Error>, o: &mut St
                 }
                 writeln!(o, "leafstr {}", hex(cat.as_bytes())).unwrap();
             }
+            if ctx.want.contains("nodeinfo") {
+                // get_str / get_str_trim of every node, as byte ranges of the preprocessed text
+                let base = match t.get_str(t_root(&t)) {
+                    Some(s0) => s0.as_ptr() as usize - first_leaf_off(&t),
+                    None => 0,
+                };
+                let mut i = 0;
+                for n in &t {
+                    let a = t.get_str(vec![n.clone()]);
+                    let b = t.get_str_trim(vec![n.clone()]);
+                    let f = |x: Option<&str>| match x {
+                        Some(s) => format!("{}:{}", s.as_ptr() as usize - base, s.len()),
+                        None => "-".to_string(),
+                    };
+                    writeln!(o, "n {} {} str={} trim={}", i, n, f(a), f(b)).unwrap();
+                    i += 1;
+                }
+            }
             if ctx.want.contains("display") {
                 let s = format!("{}", t);
                 writeln!(o, "display {}", s.len()).unwrap();
@@ -277,19 +397,25 @@ fn print_tree(ctx: &mut Ctx, r: Result<(SyntaxTree, Defines), Error>, o: &mut St
 fn raw_result<'a, T>(
     r: sv_parser_parser::IResult<Span<'a>, T>,
     o: &mut String,
-    want_tree: bool,
+    want: &HashSet<String>,
 ) where
     &'a T: IntoIterator<Item = RefNode<'a>, IntoIter = sv_parser::Iter<'a>>,
-    T: 'a,
+    T: 'a + std::fmt::Debug,
 {
     // The tree borrows from the result; print inside.
     match r {
         Ok((rest, x)) => {
             writeln!(o, "ok rest={}", rest.location_offset()).unwrap();
-            if want_tree {
-                // SAFETY of lifetimes: x lives until end of this arm.
-                let xr: &T = unsafe { &*(&x as *const T) };
+            // SAFETY of lifetimes: x lives until end of this arm.
+            let xr: &T = unsafe { &*(&x as *const T) };
+            if want.contains("tree") {
                 writeln!(o, "{}", tree_line(xr.into_iter().event())).unwrap();
+            }
+            if want.contains("dbg") {
+                writeln!(o, "dbg {}", hex(format!("{:?}", x).as_bytes())).unwrap();
+            }
+            if let Some(root) = xr.into_iter().next() {
+                iter_dump(root, o, want);
             }
         }
         Err(nom::Err::Error(e)) | Err(nom::Err::Failure(e)) => {
@@ -483,7 +609,7 @@ fn run_entry(ctx: &mut Ctx, defs: &Defines, l: &[String], o: &mut String) {
         "raw" => {
             let src = unhex_str(&l[3]);
             let span = Span::new_extra(&src, SpanInfo::default());
-            let wt = ctx.want.contains("tree");
+            let wt = &ctx.want;
             match l[2].as_str() {
                 "pp" => raw_result(sv_parser_parser::pp_parser(span), o, wt),
                 "sv" => raw_result(sv_parser_parser::sv_parser(span), o, wt),
